@@ -23,8 +23,8 @@ type Case struct {
 	Oracle     string      `json:"oracle,omitempty"` // "" = property held on this case
 	Sig        string      `json:"sig,omitempty"`    // signature of the failure class
 	Nontrivial bool        `json:"nontrivial"`
-	Kind       string      `json:"kind,omitempty"` // generator class (for the distribution)
-	HypOK      bool        `json:"hyp_ok"`         // case meets the theorem's hypotheses
+	Kind       string      `json:"kind,omitempty"`     // generator class (for the distribution)
+	HypOK      bool        `json:"hyp_ok"`             // case meets the theorem's hypotheses
 	HypLine    string      `json:"hyp_line,omitempty"` // model line that evaluates the theorem's hypotheses on this case (prints 1/0)
 	Replay     interface{} `json:"replay,omitempty"`
 	Trace      []string    `json:"trace,omitempty"` // yield-point labels passed (C07)
